@@ -127,6 +127,7 @@ impl C01 {
         f.push(("operator-grouping", if ctx.flavour == Flavour::Rel { GROUPING_TOTAL } else { 2_000 }));
         f.push(("wild", per_profile * 2));
         f.push(("scale", self.scale(ctx).len() as u64));
+        f.push(("binary-file", if ctx.flavour == Flavour::Rel { ctx.tier.pick(160, 4_000) } else { 0 }));
         Families::new(f)
     }
 }
@@ -246,6 +247,10 @@ impl Check for C01 {
                     _ => st.inconclusive(format!("reference interpreter fails on {}", c.name)),
                 }
             }
+            return;
+        }
+        if fam == "binary-file" {
+            self.binary_file(&text, st);
             return;
         }
         if fam == "scale" {
@@ -386,6 +391,79 @@ impl Check for C01 {
 }
 
 impl C01 {
+    /// `nederlang <file>`, the way a user runs a program: what the shipped (hook-free) binary writes to stdout and
+    /// stderr and how it ends must be what eval() of the same text yields in process — the printed lines, then the
+    /// result, or the error (whose kind is compared). The reference has already judged eval(); this family judges
+    /// src/bin/nederlang.rs' file mode.
+    fn binary_file(&self, text: &str, st: &mut Stats) {
+        let bin = format!("{}/harness/target-repo/release/nederlang", crate::sup::root());
+        if !std::path::Path::new(&bin).exists() {
+            st.inconclusive(format!("{} not built", bin));
+            return;
+        }
+        if text.contains("zolang ja") {
+            return;
+        }
+        let o = eval_observed(text, &ObsCfg::plain(3_000_000));
+        st.evaluations += 1;
+        let mut want_out = String::new();
+        for l in &o.output {
+            want_out.push_str(l);
+            want_out.push('\n');
+        }
+        let want_err: Option<String> = match &o.outcome {
+            Outcome::Value(v) => {
+                let mut s = String::new();
+                if super::c17::display_val(v, &mut s).is_none() {
+                    st.count("binary-file:skipped-unmodelled-rendering");
+                    return;
+                }
+                want_out.push_str(&s);
+                want_out.push('\n');
+                None
+            }
+            Outcome::Error(k, _) => Some(k.name().to_string()),
+            _ => {
+                st.count("binary-file:skipped-budget-or-anomaly");
+                return;
+            }
+        };
+        let path = format!("{}/c01-bin-{}-{:x}.nl", crate::sup::scratch_dir(), std::process::id(), crate::rng::hash_str(text));
+        if std::fs::write(&path, text).is_err() {
+            return;
+        }
+        let out = std::process::Command::new("bash")
+            .arg("-c")
+            .arg("ulimit -S -t 20; ulimit -H -t 30; exec timeout 600 \"$0\" \"$1\"")
+            .arg(&bin)
+            .arg(&path)
+            .stdin(std::process::Stdio::null())
+            .output();
+        let _ = std::fs::remove_file(&path);
+        let out = match out {
+            Ok(o) => o,
+            Err(_) => return,
+        };
+        st.count("binary-file:runs");
+        st.distinct_hash(crate::rng::hash_str(text));
+        if out.status.code() == Some(124) {
+            st.count("case-inconclusive:binary-watchdog");
+            return;
+        }
+        let got_out = String::from_utf8_lossy(&out.stdout).to_string();
+        let got_err = String::from_utf8_lossy(&out.stderr).to_string();
+        if out.status.code() != Some(0) {
+            st.violation("binary-file:abnormal-end", format!("`nederlang <file>` ended with {:?}; stderr: {}", out.status, crate::obs::clip(&got_err, 300)), text);
+            return;
+        }
+        let got_kind: Option<String> = got_err.lines().next().and_then(|l| l.split('(').next()).map(|k| k.trim_end_matches("Error").to_string());
+        if got_out != want_out {
+            st.violation("binary-file:stdout", format!("the binary printed {:?}; eval() in process gives output {:?} and {}", crate::obs::clip(&got_out, 400), o.output.iter().take(6).collect::<Vec<_>>(), o.outcome.render()), text);
+        } else if got_kind != want_err {
+            st.violation("binary-file:stderr", format!("the binary reported {:?}; eval() in process gives {}", crate::obs::clip(&got_err, 200), o.outcome.render()), text);
+        }
+    }
+
     /// (family, program text) of a case
     pub fn case_text(&mut self, ctx: &Ctx, idx: u64) -> (&'static str, String) {
         let (f, name, i) = self.fams(ctx).locate(idx);
@@ -400,6 +478,16 @@ impl C01 {
                 (name, to_text(&grouping_case(i)))
             }
             "scale" => (name, self.scale(ctx)[i as usize].1.clone()),
+            "binary-file" => {
+                // corpus first, then generated programs of every kind
+                if (i as usize) < self.corpus.len() {
+                    (name, self.corpus[i as usize].text.clone())
+                } else {
+                    let mut r = Rng::for_case(ctx.seed, 195, i);
+                    let p = if i % 3 == 0 { crate::wild::wild_program(&mut r) } else { random_program(&mut r, PROFILES[(i % 6) as usize]).0 };
+                    (name, to_text(&p))
+                }
+            }
             "wild" => {
                 let mut r = Rng::for_case(ctx.seed, 190, i);
                 (name, to_text(&crate::wild::wild_program(&mut r)))
